@@ -43,6 +43,7 @@ fn main() {
         )),
         "c10" => Box::new(fvh::c10::C10 {
             mib: args.p_u64("mib", 8),
+            log: args.p_bool("log"),
         }),
         "c12" => Box::new(fvh::c12::C12 {
             mode: args.p_str("mode", "wellformed"),
